@@ -59,11 +59,10 @@ func (ex *Exec) step(instr ssa.Instruction) {
 		np := p
 		np.Path = append(append([]int(nil), p.Path...), x.Field)
 		if !transparentStruct(typeAtPath(p.Root, p.Path)) {
-			// field of an opaque library struct: abstract it as its own cell
+			// field of an opaque library struct: accessed through the struct's abstract state
 			ft := x.Type().(*types.Pointer).Elem()
-			name := "field." + sanitize(typeName(typeAtPath(p.Root, p.Path))) + "." + fieldName(x)
-			ex.vc.DeclareFun(name, []Sort{SInt}, SInt)
-			ex.setReg(x, PtrV{Kind: pObj, Ref: app(SInt, name, ex.ptrRef(p)), Root: ft})
+			base := p
+			ex.setReg(x, PtrV{Kind: pOpaque, Base: &base, Fld: sanitize(typeName(typeAtPath(p.Root, p.Path))) + "." + fieldName(x), Root: ft})
 			return
 		}
 		ex.setReg(x, np)
